@@ -283,9 +283,11 @@ def execute(case):
         else:
             view_nodes = None
     if target == 3:
-        graph_like = ir.GraphView(list(g.inputs), list(g.outputs), nodes=list(g), initializers=list(g.initializers.values()),
+        # (a view need not declare the values its nodes consume: half of the views list no inputs at all)
+        bare = case["outs"][-1] % 2 == 1
+        graph_like = ir.GraphView([] if bare else list(g.inputs), list(g.outputs), nodes=list(g), initializers=list(g.initializers.values()),
                                   opset_imports=dict(g.opset_imports), name=g.name)
-        classes.append("GraphView")
+        classes.append("GraphView_without_declared_inputs" if bare else "GraphView")
     elif target == 4 and model.functions:
         fs = list(model.functions.values())
         graph_like = fs[case["outs"][0] % len(fs)]
@@ -363,6 +365,13 @@ def execute(case):
                 inputs.append(v)
         order, need_inits, uncovered = closure_(g, inputs, outputs)
         classes.append(["", "completed", "one_missing", "completed"][mode])
+    if "GraphView_without_declared_inputs" in classes:
+        # such a view knows a value only through its nodes: boundary inputs that no node of the view consumes or produces are
+        # not its values (a name given for one of them is rightly "not found")
+        kept = [v for v in inputs if v.producer() is not None or any(u.graph is g for u, _ in v.uses())]
+        if len(kept) != len(inputs):
+            inputs = kept
+            order, need_inits, uncovered = closure_(g, inputs, outputs)
     byname = case.get("byname", 0)
     names_unique = len({v.name for v in cand + list(g.initializers.values())}) == len(cand) + len(g.initializers)
     arg_in = [v.name if (byname & 1 and names_unique) else v for v in inputs]
